@@ -28,7 +28,8 @@
 (*              step   (s, a, r, ns) of end_of_timestep, r scaled by 1024, plus the      *)
 (*                     internal q_matrix when it changed (integers, unit 1/SC)           *)
 (*              end    end_of_episode                                                    *)
-(*              final  the returned q_values and the support of the returned policy      *)
+(*              final  the returned q_values, their exact ranks and the support of the   *)
+(*                     returned policy                                                   *)
 (*              cut    the run did not return (only the steps before are judged)         *)
 (*            The trace actions replay the bookkeeping of (R) from the logged arguments, *)
 (*            judge every clause of the property in integer arithmetic and accumulate    *)
@@ -43,8 +44,11 @@
 (*         <  diff*SC*thr*GD   (the code's own stopping rule, exact in the reals)        *)
 (*          + thr*GD/2 + GN*thr/2  (rounding of q(s,a) and of the successor values)      *)
 (*         <= (DQ + 2) * thr * GD   with DQ = ceil(diff * SC)                            *)
-(*   greedy policy: an action in the support may be below the maximum by at most WQ      *)
-(*       (msdm's isclose window 1e-8 + 1e-5 |max|, in units, + 1)                        *)
+(*         EQ = ceil(eps * SC) more units in the near-tie family, whose real rewards are *)
+(*         R - RE * eps (eps ~ 1e-6) while the model here uses the integer R             *)
+(*   greedy policy: decided exactly, without tolerance: the final event carries, per      *)
+(*       state, the dense ranks rk[s][a] of the raw float Q-values (exact float          *)
+(*       comparison); every action in the support must have the maximal rank             *)
 (*   distance to the exact machine (coarse unit 1/1024): TC = ceil(1024 (diff + 3/SC)    *)
 (*       / (1 - gamma)) + 3   (contraction: ||Q - Q*|| <= residual / (1 - gamma))        *)
 EXTENDS MDP, Json, IOUtils
@@ -131,7 +135,7 @@ ResidAt(b, t, rs, o, s, a) ==
   AbsI(Safe(o[s][a] * b.thr * b.GD)
        - (Safe(rs[s][a] * b.GD * b.SC)
           + Safe(b.GN * SumTo([n \in St(b) |-> t[s][a][n] * RowMaxI(b, o, n)], b.N))))
-ResidBad(b, t, rs, o, s, a) == ResidAt(b, t, rs, o, s, a) > (b.DQ + 2) * b.thr * b.GD
+ResidBad(b, t, rs, o, s, a) == ResidAt(b, t, rs, o, s, a) > (b.DQ + b.EQ + 2) * b.thr * b.GD
 \* floor(x * 1024) of a finite rational (TLC: \div floors, % is non-negative for a positive divisor)
 Coarse(x) == (x[1] \div x[2]) * 1024 + ((x[1] % x[2]) * 1024) \div x[2]
 FarAt(b, q, o, s, a) == AbsI(Coarse(q[s][a]) - (o[s][a] \div (b.SC \div 1024))) > b.TC
@@ -150,13 +154,22 @@ JudgeQ(b, c, t, rs, o) ==
 JudgeMachine(b, q, o) ==
   IF b.orc = 1 /\ \E s \in St(b) : HasRow(b, o, s) /\ \E a \in Ac(b) : FarAt(b, q, o, s, a)
   THEN {"far-from-exact-machine"} ELSE {}
-\* greedy policy: every action in the support is a maximiser of the returned row (window WQ)
-JudgePolicy(b, o, pol) ==
-  IF \E s \in St(b) : HasRow(b, o, s) /\
-        (\/ \E a \in Ac(b) : pol[s][a] = 1 /\ o[s][a] < RowMaxI(b, o, s) - b.WQ
+\* greedy policy, exact: rk[s] are the dense ranks of the returned row (<<>> if there is no row);
+\* every action in the support has the maximal rank, and the support is not empty
+HasRank(b, rk, s) == Len(rk[s]) = b.K
+TopRank(b, rk, s) == MaxSet({rk[s][a] : a \in Ac(b)})
+JudgePolicy(b, rk, pol) ==
+  IF \E s \in St(b) : HasRank(b, rk, s) /\
+        (\/ \E a \in Ac(b) : pol[s][a] = 1 /\ rk[s][a] < TopRank(b, rk, s)
          \/ \A a \in Ac(b) : pol[s][a] = 0)
   THEN {"policy-not-greedy"} ELSE {}
-\* rounding of an exact rational to the unit 1/SC (used by the MC self-check of the judge)
+\* implementation shaped: the code shares the support among *all* maximisers
+PolicyDrift(b, rk, pol) ==
+  IF \E s \in St(b) : HasRank(b, rk, s) /\ \E a \in Ac(b) : pol[s][a] = 0 /\ rk[s][a] = TopRank(b, rk, s)
+  THEN {"policy-omits-a-maximiser"} ELSE {}
+\* dense ranks of an exact table (model checking mode)
+RanksOf(b, q) == [s \in St(b) |-> [a \in Ac(b) |->
+                    1 + Cardinality({q[s][a2] : a2 \in {x \in Ac(b) : RLess(q[s][x], q[s][a])}})]]
 \* floor(x * sc + 1/2) without forming x[1] * sc
 RoundTo(x, sc) == (x[1] \div x[2]) * sc + (Safe((x[1] % x[2]) * 2 * sc) + x[2]) \div (2 * x[2])
 Quantise(b, q) == [s \in St(b) |-> [a \in Ac(b) |-> RoundTo(q[s][a], b.SC)]]
@@ -237,8 +250,8 @@ TrEnd ==
 \* the returned q_values and policy: every value clause of the statement is judged here
 TrFinal ==
   /\ pc = "trace" /\ l <= Len(M.ev) /\ Ev.k = "final"
-  /\ LET f1 == JudgeQ(M, cnt, tcnt, rsum, Ev.q) \cup JudgePolicy(M, Ev.q, Ev.pol)
-         d1 == JudgeMachine(M, Q, Ev.q)
+  /\ LET f1 == JudgeQ(M, cnt, tcnt, rsum, Ev.q) \cup JudgePolicy(M, Ev.rk, Ev.pol)
+         d1 == JudgeMachine(M, Q, Ev.q) \cup PolicyDrift(M, Ev.rk, Ev.pol)
                \cup (IF obs # <<>> /\ \E s \in St(M) : HasRow(M, obs, s) /\ HasRow(M, Ev.q, s) /\ obs[s] # Ev.q[s]
                      THEN {"returned-q-differs-from-last-q-matrix"} ELSE {})
      IN /\ fail' = fail \cup {<<x, l>> : x \in f1}
@@ -295,7 +308,8 @@ JudgeAcceptsMachine ==
   Mode = "mc" => LET o == Quantise(M, Q) IN
      /\ JudgeQ(M, cnt, tcnt, rsum, o) = {}
      /\ JudgeMachine(M, Q, o) = {}
-     /\ JudgePolicy(M, o, [s \in St(M) |-> [a \in Ac(M) |-> IF Q[s][a] = RowMax(M, Q, s) THEN 1 ELSE 0]]) = {}
+     /\ LET pol == [s \in St(M) |-> [a \in Ac(M) |-> IF Q[s][a] = RowMax(M, Q, s) THEN 1 ELSE 0]] IN
+           JudgePolicy(M, RanksOf(M, Q), pol) = {} /\ PolicyDrift(M, RanksOf(M, Q), pol) = {}
 \* vacuity guard (model checking mode): reports the instances in which some state became fully known,
 \* i.e. in which the exact fixed point was computed on a non-trivial system
 EmitLearned ==
